@@ -409,6 +409,11 @@ func (handle *writeTxnHandle) Commit() ReadTxn {
 	// the root lock.
 	currentRoot := *db.root.Load()
 	root := txn.tableEntries
+	if len(currentRoot) > len(root) {
+		// Tables were registered after this transaction was started. Carry
+		// them over so they're not dropped from the new root.
+		root = append(root, currentRoot[len(root):]...)
+	}
 	var initChansToClose []chan struct{}
 
 	// Insert the modified tables into the root tree of tables.
